@@ -574,10 +574,14 @@ class BaseNode402(RemoteNode):
             # An automatic transition has taken the drive there in the meantime
             return True
         try:
-            self.controlword = State402.TRANSITIONTABLE[(from_state, target_state)]
+            controlword = State402.TRANSITIONTABLE[(from_state, target_state)]
         except KeyError:
             raise ValueError(
                 f'Illegal state transition from {from_state} to {target_state}')
+        if controlword & State402.CW_SWITCH_ON_DISABLED:
+            # The drive resets a fault on the rising edge of this bit only
+            self.controlword = controlword & ~State402.CW_SWITCH_ON_DISABLED
+        self.controlword = controlword
         timeout = time.monotonic() + self.TIMEOUT_SWITCH_STATE_SINGLE
         while self.state != target_state:
             if time.monotonic() > timeout:
